@@ -67,8 +67,6 @@ pred mcyc(rl *MultiRateLimiter, t int) := (t - rl.startTime) / mP(rl)
 pred mShift(rl *MultiRateLimiter, c int, i int) := max(0, rl.tokens[i] - (c - rl.cycle) * mL(rl, i))
 pred mWF(rl *MultiRateLimiter) := rl != nil && rl.policy != nil && mP(rl) > 0 && mT(rl) >= 0 && len(rl.tokens) == mN(rl) && ref(rl.tokens) != ref(rl.policy.LimitForPeriod) && rl.startTime <= clock && rl.cycle >= 0 && rl.cycle <= mcyc(rl, clock) && (forall i int :: 0 <= i && i < mN(rl) ==> mL(rl, i) >= 1 && rl.tokens[i] >= 0)
 
-lemma quotient-bound@k: forall s, l, k int :: l >= 1 && s >= 0 && k >= 0 && s < l * (k + 1) ==> s / l <= k
-lemma whole-periods-fit@q: forall p, t, q int :: p > 0 && t >= 0 && 0 <= q && q <= t / p ==> p * q <= t
 
 func (rl *MultiRateLimiter) AcquirePermission(count []int) (ok bool, wait time.Duration, err error)
   flag allocates
@@ -92,8 +90,10 @@ func (rl *MultiRateLimiter) AcquirePermission(count []int) (ok bool, wait time.D
   invariant[3] forall j int :: 0 <= j && j < idx$3 ==> tokens[j] < maxTokens[j]
   invariant[4] let c = cycle in (0 <= i && i <= mN(rl) && (forall j int :: 0 <= j && j < mN(rl) ==> tokens[j] == old(mShift(rl, c, j)) && maxTokens[j] == mL(rl, j) * scale && rl.tokens[j] == (j < i ? tokens[j] + count[j] : old(rl.tokens[j]))))
   invariant[5] allFree && (forall j int :: 0 <= j && j < idx$5 ==> tokens[j] < mL(rl, j))
-  invariant[6] horizon: scale == mT(rl) / mP(rl) + 1 && cycle == (now - rl.startTime) / mP(rl) && now >= rl.startTime && (forall j int :: 0 <= j && j < mN(rl) ==> 0 <= tokens[j] && tokens[j] < mL(rl, j) * scale)
-  invariant[6] quotient-bound: forall j int :: 0 <= j && j < mN(rl) ==> tokens[j] / mL(rl, j) <= mT(rl) / mP(rl)
-  invariant[6] whole-periods-fit: (forall j int :: 0 <= j && j < mN(rl) ==> mP(rl) * (tokens[j] / mL(rl, j)) <= mT(rl)) && mP(rl) * cycle <= now - rl.startTime
+  invariant[6] horizon: scale == mT(rl) / mP(rl) + 1 && cycle == (now - rl.startTime) / mP(rl) && now >= rl.startTime && (forall j int :: 0 <= j && j < mN(rl) ==> 0 <= tokens[j] && tokens[j] < mL(rl, j) * scale && mL(rl, j) >= 1)
   invariant[6] 0 <= timeToWait && timeToWait <= mT(rl) && (forall j int :: 0 <= j && j < idx$6 ==> timeToWait >= rl.startTime + mP(rl) * (cycle + tokens[j] / mL(rl, j)) - now)
+  hint[6] this-kind-is-within-its-horizon: 0 <= token && token < mL(rl, i) * (mT(rl) / mP(rl) + 1) && mL(rl, i) >= 1 && token == tokens[i]
+  hint[6] quotient-bound: token / mL(rl, i) <= mT(rl) / mP(rl) && token / mL(rl, i) >= 0
+  hint[6] whole-periods-fit: mP(rl) * (token / mL(rl, i)) <= mT(rl) && mP(rl) * cycle <= now - rl.startTime
+  hint[6] this-kinds-release-time: mP(rl) * (cycle + token / mL(rl, i)) == mP(rl) * cycle + mP(rl) * (token / mL(rl, i))
 @*/
